@@ -115,7 +115,12 @@ func init() {
 		m.safeSite("div0", Neq(term(a[1]), IntLit(0)), "Int.Quo by zero panics")
 		return App(SInt, "tdiv", term(a[0]), term(a[1]))
 	}
-	models[in+"Int64"] = func(m *Machine, _ *Frame, _ *ssa.CallCommon, a []Val) Val { return term(a[0]) }
+	models[in+"Int64"] = func(m *Machine, _ *Frame, _ *ssa.CallCommon, a []Val) Val {
+		// math.Int.Int64 panics ("Int64() out of bound") when the value does not fit
+		x := term(a[0])
+		m.safeSite("int64", And(Ge(x, T(SInt, "(- 9223372036854775808)")), Le(x, T(SInt, "9223372036854775807"))), "math.Int.Int64 panics when the value does not fit into an int64")
+		return x
+	}
 
 	// ---- time ----
 	aTime := func(m *Machine) {
